@@ -593,7 +593,7 @@ func (mf *MultiFileAppendable) appendableFor(off int64) (appendable.Appendable, 
 	mf.mutex.Unlock()
 
 	key := strconv.FormatInt(appID, 10)
-	_, err, _ := mf.prefetchSf.Do(key, func() (interface{}, error) {
+	openAndCache := func() (interface{}, error) {
 		// Race check: someone may have inserted while we were
 		// waiting for the singleflight slot.
 		mf.mutex.Lock()
@@ -640,25 +640,39 @@ func (mf *MultiFileAppendable) appendableFor(off int64) (appendable.Appendable, 
 			_ = ejected.Close()
 		}
 		return nil, nil
-	})
-	if err != nil {
-		return nil, err
 	}
 
-	mf.mutex.Lock()
-	defer mf.mutex.Unlock()
+	for {
+		_, err, _ := mf.prefetchSf.Do(key, openAndCache)
+		if err != nil {
+			return nil, err
+		}
 
-	if mf.closed {
-		return nil, ErrAlreadyClosed
+		mf.mutex.Lock()
+
+		if mf.closed {
+			mf.mutex.Unlock()
+			return nil, ErrAlreadyClosed
+		}
+
+		app, err := mf.appendables.Get(appID)
+		if errors.Is(err, cache.ErrKeyNotFound) {
+			// The mutex is not held between caching the appendable
+			// and acquiring it: a concurrent open of another chunk
+			// may have evicted it in the meantime. It's a miss, not
+			// an error: open it again.
+			mf.mutex.Unlock()
+			continue
+		}
+		if err != nil {
+			mf.mutex.Unlock()
+			return nil, err
+		}
+
+		mf.maybePrefetchAheadLocked(appID)
+		mf.mutex.Unlock()
+		return app, nil
 	}
-
-	app, err := mf.appendables.Get(appID)
-	if err != nil {
-		return nil, err
-	}
-
-	mf.maybePrefetchAheadLocked(appID)
-	return app, nil
 }
 
 // openAppendableSnapshot is a snapshot of the bits that openAppendable
